@@ -346,6 +346,12 @@ pub fn replay(args: &Args) {
                 rep.cases += 1;
                 cmp_case(&mut rep, v);
             },
+            "tdcmp" => {
+                if only_time || !args.flag("no-time") {
+                    rep.cases += 1;
+                    tdcmp_case(&mut rep, v);
+                }
+            },
             _ => {},
         }
     }
@@ -353,6 +359,36 @@ pub fn replay(args: &Args) {
     rep.sample(serde_json::json!({"language_conversion_cases_checked": lang_checked,
                                   "pairs_without_a_Cast_impl_in_the_table": missing.iter().collect::<Vec<_>>()}));
     rep.finish();
+}
+
+/// durations under the sort comparators: <<months, exact nanoseconds>>, <<NULL, 0>> = NaT
+fn tdcmp_case(rep: &mut Report, v: &Value) {
+    use std::cmp::Ordering;
+    let mk = |x: &Value| -> TimeDelta {
+        let (m, n) = (x[0].as_i64().unwrap(), x[1].as_i64().unwrap());
+        if m == NULL { TimeDelta::nat() } else { TimeDelta { months: m as i32, inner: chrono::Duration::nanoseconds(n) } }
+    };
+    let (a, b) = (mk(&v["a"]), mk(&v["b"]));
+    let (want, want_rev) = (get_i64(v, "cmp"), get_i64(v, "rev"));
+    let ord = |o: Ordering| match o {
+        Ordering::Less => -1,
+        Ordering::Equal => 0,
+        Ordering::Greater => 1,
+    };
+    let key = format!("sort_cmp|timedelta a={},b={}", v["a"], v["b"]);
+    rep.cells += 1;
+    match catch(|| (ord(a.sort_cmp(&b)), ord(a.sort_cmp_rev(&b)))) {
+        Ok((c, r)) if c == want && r == want_rev => rep.ok("sort_cmp", 0.0),
+        Ok((c, r)) => rep.mismatch("sort_cmp", "sort_cmp|timedelta", &key, "TimeDelta", &format!("sort_cmp = {c}, sort_cmp_rev = {r}; want {want}, {want_rev}"), v),
+        Err(p) => rep.mismatch("sort_cmp", "sort_cmp|timedelta", &key, "TimeDelta", &format!("panicked: {p}"), v),
+    }
+    let (oa, ob) = (if a.is_nat() { None } else { Some(a) }, if b.is_nat() { None } else { Some(b) });
+    rep.cells += 1;
+    match catch(|| (ord(oa.sort_cmp(&ob)), ord(oa.sort_cmp_rev(&ob)))) {
+        Ok((c, r)) if c == want && r == want_rev => rep.ok("sort_cmp", 0.0),
+        Ok((c, r)) => rep.mismatch("sort_cmp", "sort_cmp|timedelta", &key, "Option<TimeDelta>", &format!("sort_cmp = {c}, sort_cmp_rev = {r}; want {want}, {want_rev}"), v),
+        Err(p) => rep.mismatch("sort_cmp", "sort_cmp|timedelta", &key, "Option<TimeDelta>", &format!("panicked: {p}"), v),
+    }
 }
 
 fn cmp_case(rep: &mut Report, v: &Value) {
